@@ -70,7 +70,23 @@ theorem inv_step {σ σ' : State} (h : Inv σ) (op : Op) (hs : step σ op = .ok 
     · cases hs
   case iopSeq t v code =>
     split at hs
-    · rename_i hc; exact (iopSeq_spec_partial code h hc.1 hc.2 hs).1
+    · rename_i hc
+      split at hs
+      · rename_i σ'' hi
+        split at hs
+        · cases hs; exact (iopSeq_spec_partial code h hc.1 hc.2 hi).1
+        · cases hs
+      · cases hs
+    · cases hs
+  case iopF t code k =>
+    split at hs
+    · rename_i ht
+      split at hs
+      · rename_i σ'' hi
+        split at hs
+        · cases hs; exact (inv_iop h ht code k hi).1
+        · cases hs
+      · cases hs
     · cases hs
   case opSeq t v code =>
     split at hs
@@ -444,7 +460,7 @@ example : let σ := run State.init [.new 0, .extend 0 1 1 [[[1],[2]], [[3]], [[4
 
 /-- operations that do not write through an existing array -/
 def Op.noWrite : Op → Bool
-  | .setInt .. | .setSlice .. | .iop .. | .iopSeq .. => false
+  | .setInt .. | .setSlice .. | .iop .. | .iopSeq .. | .iopF .. => false
   | _ => true
 
 /-- `_check_shape` + the element-by-element row counts, on two lists of arrays -/
@@ -838,6 +854,55 @@ theorem orig_iop_partial :
     (iop (arith 0 10) σ 1).map (·.contents 0) = some [[[11],[12]], [[13]]] := by
   decide
 
+/-! ### in-place arithmetic NumPy refuses: the NONE branch of all-or-none -/
+
+/-- the operation raises `e` -/
+def raises (r : Except Err State) (e : Err) : Bool :=
+  match r with
+  | .error e' => e' == e
+  | .ok _ => false
+
+/-- `seq op= <Python float>` in a history: it succeeds exactly when the sequence has arrays and NumPy can cast
+    the result back to the buffer's dtype (`inplaceFloatOK`, regenerated from NumPy), and then it IS the
+    in-place operation `iop` (which `iop_all_or_none` characterises: ALL shared arrays get it); otherwise it
+    raises before anything is written and `run` keeps the state (NONE).  (Definitional glue: it ties the
+    decision rule of the model's `step` — which the correspondence compares with the real code — to `iop`.) -/
+theorem iopF_ok_iff {σ σ' : State} {t : Nat} (ht : t < σ.seqs.length) (code : Nat) (k : Int) :
+    step σ (.iopF t code k) = .ok σ' ↔
+      (inplaceFloatOK (σ.bufAt (σ.seqAt t).buf).dt = true ∧ iop (arith code k) σ t = some σ') := by
+  simp only [step, ht, if_true]
+  cases hi : iop (arith code k) σ t with
+  | none => simp
+  | some σ'' =>
+    by_cases hok : inplaceFloatOK (σ.bufAt (σ.seqAt t).buf).dt = true
+    · simp [hok]
+    · simp [hok]
+
+example : let σ := run State.init [.new 0, .append 0 1 4 [[1],[2]], .slice 0 ⟨none, none, none⟩]
+    (∃ σ', step σ (.iopF 1 0 2) = .ok σ' ∧ σ'.contents 0 = [[[3],[4]]]) := ⟨_, rfl, by decide⟩
+
+example : let σ := run State.init [.new 0, .append 0 1 2 [[1],[2]], .slice 0 ⟨none, none, none⟩]
+    raises (step σ (.iopF 1 0 2)) .type = true ∧ (run σ [.iopF 1 0 2]).contents 0 = [[[1],[2]]] := by decide
+
+/-- `seq op= other` (other an ArraySequence) in a history: it succeeds exactly when `iopSeq` does (shapes,
+    arrays present) AND NumPy can cast the result back to the target's dtype (`inplaceSeqOK`, regenerated
+    from NumPy); otherwise nothing is written (NONE).  (Definitional glue, as `iopF_ok_iff`.) -/
+theorem iopSeq_step_ok_iff {σ σ' : State} {t v : Nat} (ht : t < σ.seqs.length) (hv : v < σ.seqs.length)
+    (code : Nat) :
+    step σ (.iopSeq t v code) = .ok σ' ↔
+      (inplaceSeqOK (σ.bufAt (σ.seqAt t).buf).dt (σ.bufAt (σ.seqAt v).buf).dt = true ∧ iopSeq code σ t v = .ok σ') := by
+  simp only [step, ht, hv, and_self, if_true]
+  cases hi : iopSeq code σ t v with
+  | error e => simp
+  | ok σ'' =>
+    by_cases hok : inplaceSeqOK (σ.bufAt (σ.seqAt t).buf).dt (σ.bufAt (σ.seqAt v).buf).dt = true
+    · simp [hok]
+    · simp [hok]
+
+example : let σ := run State.init [.new 0, .append 0 1 2 [[1],[2]], .new 0, .append 1 1 0 [[5],[6]]]
+    raises (step σ (.iopSeq 0 1 0)) .type = true ∧ (∃ σ', step σ (.iopSeq 1 0 0) = .ok σ' ∧ σ'.contents 1 = [[[6],[8]]]) :=
+  ⟨by decide, _, rfl, by decide⟩
+
 /-! ### Tractograms over the sequence heap: `Tractogram(..)`, `T[idx]`, `T.extend(U)` / `+=`,
     `T.data_per_point[k] = seq` (Model/C15.lean `TOp`, `tstep`; Lemmas/C15_Tract.lean) -/
 
@@ -942,7 +1007,23 @@ theorem step_len {σ σ' : State} (h : Inv σ) (op : Op) (hs : step σ op = .ok 
     · cases hs
   case iopSeq t v code =>
     split at hs
-    · rename_i hc; rw [(iopSeq_spec_partial code h hc.1 hc.2 hs).2.1]; omega
+    · rename_i hc
+      split at hs
+      · rename_i σ'' hi
+        split at hs
+        · cases hs; rw [(iopSeq_spec_partial code h hc.1 hc.2 hi).2.1]; omega
+        · cases hs
+      · cases hs
+    · cases hs
+  case iopF t code k =>
+    split at hs
+    · rename_i ht
+      split at hs
+      · rename_i σ'' hi
+        split at hs
+        · cases hs; rw [(inv_iop h ht code k hi).2]; omega
+        · cases hs
+      · cases hs
     · cases hs
   case opSeq t v code =>
     split at hs
